@@ -277,7 +277,18 @@ def run_scripted(spec):
         if kv == "setter":      # documented: kmip_version can be modified at any time
             client.kmip_version = W.kmip_version_enum(v)
         try:
-            outcome = ("ret", op.call(api, client, a, v))
+            if spec.get("ctx") and api == "pie":
+                # documented usage: `with client: client.op(...)`; the transport's open/close are
+                # stubbed (the fake socket is already in place), the client's own are not
+                client._is_open = False
+                client.proxy.open = lambda: None
+                client.proxy.close = lambda: None
+                ret = None      # what the caller has if the with block ends without an exception
+                with client:
+                    ret = op.call(api, client, a, v)
+                outcome = ("ret", ret)
+            else:
+                outcome = ("ret", op.call(api, client, a, v))
         except Exception as e:      # noqa
             outcome = ("exc", e)
     finally:
@@ -290,6 +301,8 @@ def run_scripted(spec):
           "success" if r["kind"] == "success" else
           "failure-msg" if r.get("message") is not None else "failure-nomsg")
     classes = ["op:" + label, "v:" + vkey(v), "resp:" + rk, "mode:scripted", "kmip_version:" + kv]
+    if spec.get("ctx") and api == "pie":
+        classes.append("called-inside-with-block")
     if cred:
         classes.append("credential")
     if r["kind"] == "failure" and not r.get("echo", True):
